@@ -318,6 +318,8 @@ pub fn run(sink: &mut Sink, rng: &mut Rng, thorough: bool, dir: &Path) {
   crate::st::c19_st(sink, rng, thorough, dir);
   // `moc from timestamppos / timerangepos`
   crate::st::c19_st_from(sink, rng, thorough, dir);
+  // `moc from vcells` (ASCII multi-order map) against the C20 model
+  crate::c20::cli_vcells(sink, rng, thorough, dir);
 
   // NUNIQ (v1) inputs for space
   for _ in 0..(if thorough { 40 } else { 8 }) {
